@@ -1,5 +1,6 @@
 pub mod maps;
 pub mod stack;
+pub mod values;
 
 use crate::framework::Engine;
 
@@ -9,6 +10,8 @@ pub fn all() -> Vec<Box<dyn Engine>> {
         Box::new(stack::BStackEngine),
         Box::new(maps::HmEngine),
         Box::new(maps::HtEngine),
+        Box::new(values::ValEngine),
+        Box::new(values::TblEngine),
     ]
 }
 
